@@ -93,7 +93,7 @@ const (
 func (f *fsm) cleanup() {
 	if f.cancelDialFn != nil {
 		f.cancelDialFn()
-		<-f.dialResultCh
+		closeDialResult(<-f.dialResultCh)
 	}
 	f.cleanupConnAndReader()
 	for _, t := range []*time.Timer{f.connectRetryTimer, f.holdTimer,
@@ -207,6 +207,15 @@ type dialResult struct {
 	err  error
 }
 
+// closeDialResult closes the connection carried by a dial result that is being
+// discarded. A dial can complete successfully while it is being cancelled, in
+// which case nobody else would ever close the connection.
+func closeDialResult(dr *dialResult) {
+	if dr != nil && dr.conn != nil {
+		dr.conn.Close()
+	}
+}
+
 func (f *fsm) dialPeer() {
 	ctx, cancel := context.WithCancel(context.Background())
 	dialResultCh := make(chan *dialResult)
@@ -307,7 +316,7 @@ func (f *fsm) connect() fsmState {
 		select {
 		case <-f.closeCh:
 			f.cancelDialFn()
-			<-f.dialResultCh
+			closeDialResult(<-f.dialResultCh)
 			f.connectRetryTimer.Stop()
 			return disabledState
 		case dr := <-f.dialResultCh:
